@@ -82,6 +82,22 @@ def r52(facts, res, R='R5.2'):
             for s in (p.end[1][2], p.end[1][3]):
                 if is_const(s):
                     eqs.append(s[1])
+    unit_closure = None
+    if tk is None and not eqs:
+        # the same test as `(0..N).all(|_| matches!(it.next(), Some(<a shift>)))`: N elements are drawn, all N must be shifts
+        for bb, t in b.calls_named('all'):
+            rl = b.op_root(t['args'][0], through=('into_iter', 'iter'), stop_named=False)[0] if t['args'] else None
+            rng = [rv for _bb, kind, rv in b.defs().get(rl, ()) if kind == 'stmt' and 'agg' in rv and isinstance(rv['agg'], dict) and rv['agg'].get('adt', '').endswith('ops::range::Range')]
+            cl = op_local(t['args'][1]) if len(t['args']) > 1 else None
+            cbs = [facts.bodies.get(rv['agg']['closure']) for _bb, kind, rv in b.defs().get(cl, ()) if kind == 'stmt' and 'agg' in rv and isinstance(rv['agg'], dict) and 'closure' in rv['agg']]
+            if len(rng) == 1 and len(cbs) == 1 and cbs[0] is not None:
+                lo, hi = [(o.get('const') or {}).get('int') for o in rng[0]['ops'][:2]]
+                cps = Walker(cbs[0], facts, max_paths=64).run()
+                one_next = bool(cps) and all(len([e for e in p.calls(name='next')]) == 1 for p in cps if p.end[0] == 'return')
+                if lo == 0 and isinstance(hi, int) and one_next and b.lty(0) == 'bool':
+                    rps = Walker(b, facts, max_paths=16).run()
+                    if rps and all(p.end[0] == 'return' and is_call(p.end[1], 'all') for p in rps):
+                        tk, eqs, unit_closure = hi, [hi], cbs[0]
     if tk is None or not eqs:
         res.lost(R, 'cannot read the constants of ends_with_parse_at_least_shifts (take=%s, eq=%s)' % (tk, eqs))
     elif tk == PARSE_AT_LEAST and set(eqs) == {PARSE_AT_LEAST}:
@@ -94,7 +110,26 @@ def r52(facts, res, R='R5.2'):
     rma = facts.adt('lrpar::cpctplus::RepairMerge')
     shift_d = [v['discr'] for v in rpa['variants'] if v['name'] == 'Shift'][0]
     rmn = {v['discr']: v['name'] for v in rma['variants']}
-    counters = [b]
+    counters = [b] if unit_closure is None else []
+    if unit_closure is not None:
+        # the element predicate: true (the element counts) only for Repair(Shift) / Merge(Shift, _)
+        okc = True
+        n1 = 0
+        for p in Walker(unit_closure, facts, max_paths=64).run():
+            if p.end[0] != 'return':
+                continue
+            if p.end[1] == ('const', 0):
+                continue
+            n1 += 1
+            inner = [(c, v) for c, v in p.conds if c[0] == 'discr' and c[1][0] == 'field' and c[1][1][0] == 'downcast' and term_has(c[1], lambda x: isinstance(x, tuple) and x and x[0] == 'call' and x[1].endswith('::next'))
+                     and not (c[1][1][1][0] == 'call')]
+            if p.end[1] != ('const', 1) or not any(v == shift_d for c, v in inner):
+                okc = False
+        key = 'shift-count:ends_with_parse_at_least_shifts'
+        if okc and n1:
+            res.ok(R, key, loc_of(unit_closure), 'an element is counted iff it is Repair(Shift) or Merge(Shift, _)')
+        else:
+            res.bad(R, key, loc_of(unit_closure), 'an element is counted as a shift without checking that its repair IS a shift (a merged Insert/Delete would count)')
     for eqb in facts.lib_bodies(['lrpar']):
         if eqb.kind == 'closure' and 'PathFNode' in (eqb.parent or '') and eqb.loops():
             counters.append(eqb)
@@ -152,7 +187,16 @@ def r52(facts, res, R='R5.2'):
             if r != ('const', 1):
                 ok, why = False, 'three trailing shifts must be a success'
         elif e == [0]:
-            if not a:
+            # `action(..) == Action::Accept` returned as a value instead of a match on the action
+            eqf = None
+            if r[0] == 'bin' and r[1] == 'Eq':
+                for x, y in ((r[2], r[3]), (r[3], r[2])):
+                    if is_call(strip_ref(x), 'action') and find_variant(y, 'Accept', adt_suffix='Action') is not None:
+                        eqf = strip_ref(x)
+            if eqf is not None:
+                if not (has_call(eqf[2][2], 'next_tidx') and term_has(eqf[2][1], lambda x: isinstance(x, tuple) and len(x) > 3 and x[0] == 'field' and x[3] == 'pstack')):
+                    ok, why = False, 'Accept test does not look up (top of the node\'s stack, next_tidx(node.laidx))'
+            elif not a:
                 ok, why = False, 'without three trailing shifts the table action must decide'
             else:
                 cd, v = a[0]
@@ -162,7 +206,7 @@ def r52(facts, res, R='R5.2'):
                 lk = cd[1]
                 if not (has_call(lk[2][2], 'next_tidx') and term_has(lk[2][1], lambda x: isinstance(x, tuple) and len(x) > 3 and x[0] == 'field' and x[3] == 'pstack')):
                     ok, why = False, 'Accept test does not look up (top of the node\'s stack, next_tidx(node.laidx))'
-    if ok and n >= 3:
+    if ok and n >= 2:
         res.ok(R, 'success-criterion', loc_of(c), 'success = last three repairs are shifts, or action(top, next_tidx(laidx)) is Accept')
     else:
         res.bad(R, 'success-criterion', loc_of(c), why or 'could not read the success closure')
@@ -339,29 +383,78 @@ def r55(facts, res):
     if len(fs) != 1:
         res.lost(R, 'repair_to_parse_repair not found')
         return
-    clos = facts.closures_of(fs[0])
-    if len(clos) != 1:
-        res.lost(R, 'expected one mapping closure in repair_to_parse_repair, found %d' % len(clos))
-        return
-    c = clos[0]
+    clos = [c for c in facts.closures_of(fs[0]) if c.calls_named('next_lexeme')]
     rp = facts.adt('lrpar::cpctplus::Repair')
     vn = {v['discr']: v['name'] for v in rp['variants']}
     want = {'InsertTerm': ('Insert', False), 'Delete': ('Delete', True), 'Shift': ('Shift', True)}
     seen = {}
-    for p in Walker(c, facts, max_paths=64).run():
-        if p.end[0] != 'return':
-            continue
-        dv = [v for cd, v in p.conds if cd[0] == 'discr']
-        if not dv or not isinstance(dv[0], int):
-            continue
-        kind = vn.get(dv[0])
-        out = p.end[1][3] if p.end[1][0] == 'variant' else '?'
-        adv = [e for e in p.stores() if isinstance(e[3], tuple) and e[3][0] == 'bin' and e[3][1] == 'Add' and e[3][3] == ('const', 1)]
-        lex_ok = True
-        if kind in ('Delete', 'Shift'):
-            nl = find_calls(p.end[1], 'next_lexeme')
-            lex_ok = bool(nl) and bool(adv) and nl[0][2][1] == adv[0][3][2]
-        seen[kind] = (out, bool(adv), lex_ok)
+
+    def kind_of(conds, is_elem):
+        """the one Repair variant the path's tests of the element leave possible"""
+        poss = set(vn)
+        hit = False
+        for cd, v in conds:
+            if cd[0] != 'discr' or not is_elem(cd[1]):
+                continue
+            hit = True
+            if isinstance(v, int):
+                poss &= {v}
+            elif isinstance(v, tuple) and v[0] == 'ne':
+                poss -= set(v[1])
+        return vn[next(iter(poss))] if hit and len(poss) == 1 else None
+
+    if len(clos) == 1:
+        # form A: from.iter().map(|y| ..).collect() - one call of the closure is one element
+        c = clos[0]
+        for p in Walker(c, facts, max_paths=64).run():
+            if p.end[0] != 'return':
+                continue
+            kind = kind_of(p.conds, lambda t: term_has(t, lambda x: x == ('param', 2)))
+            if kind is None:
+                continue
+            out = p.end[1][3] if p.end[1][0] == 'variant' else '?'
+            adv = [e for e in p.stores() if isinstance(e[3], tuple) and e[3][0] == 'bin' and e[3][1] == 'Add' and e[3][3] == ('const', 1)]
+            lex_ok = True
+            if kind in ('Delete', 'Shift'):
+                nl = find_calls(p.end[1], 'next_lexeme')
+                lex_ok = bool(nl) and bool(adv) and nl[0][2][1] == adv[0][3][2]
+            seen[kind] = (out, bool(adv), lex_ok)
+    elif not clos:
+        # form B: an explicit loop over the repairs that pushes one reported repair per element
+        c = fs[0]
+        loops = c.loops()
+        hs = [h for h in loops if any('Repair' in (callee_of(t).get('self_ty') or '') for bb, t in c.calls_named('next', loops[h]))]
+        if len(hs) != 1:
+            res.lost(R, 'repair_to_parse_repair has neither one mapping closure nor one loop over the repairs')
+            return
+        h = hs[0]
+        from lrstep import widening_walker, loop_assigned
+        w = widening_walker(c, facts, max_paths=256)
+        w.widen_headers = set(loops) - {h}
+        w.widen_assigned = {x: loop_assigned(c, x) for x in w.widen_headers}
+        for p in w.run(h, stop=lambda x: x not in loops[h]):
+            if p.end != ('loop', h):
+                continue
+            kind = kind_of(p.conds, lambda t: not is_call(strip_ref(t), 'next') and term_has(t, lambda x: is_call(x, 'next')))
+            if kind is None:
+                continue
+            pushes = [e for e in p.calls(name='push') if find_variant(e[3][1], adt_suffix='ParseRepair') is not None]
+            if len(pushes) != 1:
+                seen[kind] = ('%d values pushed' % len(pushes), False, False)
+                continue
+            pv = find_variant(pushes[0][3][1], adt_suffix='ParseRepair')
+            out = pv[3]
+            # the running index: a usize local that ends the round one higher than it began
+            advl = [(k, v) for k, v in p.env.items() if isinstance(k[0], int) and not k[1] and c.lty(k[0]) == 'usize' and isinstance(v, tuple) and v[0] == 'bin' and v[1] == 'Add'
+                    and v[3] == ('const', 1) and v[2] in (('param', k[0]), ('uninit', k[0]))]
+            lex_ok = True
+            if kind in ('Delete', 'Shift'):
+                nl = find_calls(pv, 'next_lexeme')
+                lex_ok = bool(nl) and bool(advl) and nl[0][2][1] == advl[0][1][2]
+            seen[kind] = (out, bool(advl), lex_ok)
+    else:
+        res.lost(R, 'expected one mapping closure in repair_to_parse_repair, found %d' % len(clos))
+        return
     for kind, (wout, wadv) in want.items():
         got = seen.get(kind)
         key = 'repair-map:' + kind
